@@ -224,14 +224,20 @@ theorem fact_walk_loop (x : BitVec 32) (i last : WalkCtr) :
     walkCtrBits = 64 ∧ walkInit x = x.setWidth 64 ∧ walkCond i last = decide (i ≤ last) ∧
     walkStep i = i + 1#64 ∧ walkIP i = i.setWidth 32 := ⟨rfl, rfl, rfl, rfl, rfl⟩
 
-/-- Source shapes the model mirrors and which are not arithmetic (so they are pinned textually by factgen, not
-    translated): `IPRange.Size`'s nil guard, `ParseIPRange` (split on the FIRST separator, `net.ParseIP` of both halves,
-    order check, else a single address), `IPRange.String` (single address printed alone), `IPToInt` / `IntToIP` (big
-    endian 32 bits), `fipCheck` (IPv4 only; BOTH ends of every range inside the subnet {Gateway, Mask}; adjacency for
-    `i != 0`), `UnmarshalJSON` ends with `return fipCheck(fip)`.  A changed shape makes its pin `false`. -/
+/-- Source shapes the model mirrors and which are not arithmetic.  factgen normalises each function (alpha-renaming,
+    guard clause ≡ if/else, dropped `else` after a return, `return c` ≡ `if !c {return false}; return true`, switch ≡
+    if-chain, range-by-index ≡ range-by-value, inlined single-assignment locals, log statements and error texts
+    ignored, Sprintf ≡ concatenation) and compares it with the normal form of the function the model was written
+    against; a pin is `false` when a guard was dropped / moved, a call or operand changed, an error became nil, ….
+    Pinned: `IPRange.Size`'s nil guard; `ParseIPRange` (split on the FIRST separator, `net.ParseIP` of both halves,
+    order check, else a single address); `IPRange.String` (a single address printed alone); `IPToInt` / `IntToIP`
+    (big endian 32 bits); `fipCheck` (IPv4 only; BOTH ends of every range inside the subnet {Gateway, Mask}; adjacency
+    for every range but the first); `UnmarshalJSON` (what `jsonConf` / `nodeSubnetsOf` / `buildPool` mirror, ending with
+    `fipCheck`); `MarshalJSON` (`encodePool`); `ensureIPAMConf` (`ensureConf`: `*lastConf` is assigned only after the
+    decode, the null-pool check and `ConfigurePool` succeeded). -/
 theorem fact_pins : pins = [("rangeSizeGuard", true), ("parseIPRangeShape", true), ("rangeStringShape", true),
-    ("ipToIntShape", true), ("intToIPShape", true), ("fipCheckGuards", true), ("fipCheckSkeleton", true),
-    ("unmarshalEndsWithFipCheck", true)] := by decide
+    ("ipToIntShape", true), ("intToIPShape", true), ("fipCheckShape", true), ("unmarshalJSONShape", true),
+    ("marshalJSONShape", true), ("ensureIPAMConfShape", true)] := by decide
 
 /-- `floatingip.Minus` is the exact integer difference of the two addresses (no wrap: computed in `int64`). -/
 theorem fact_minus (a b : IPv4) : (minus a b).toInt = (a.toNat : Int) - (b.toNat : Int) := minus_toInt a b
@@ -247,27 +253,6 @@ theorem fact_confFields : confFields =
     [("NodeSubnets", "[]*nets.IPNet", "nodeSubnets"), ("RoutableSubnet", "*nets.IPNet", "routableSubnet,omitempty"),
      ("IPs", "[]string", "ips"), ("Subnet", "*nets.IPNet", "subnet"), ("Gateway", "net.IP", "gateway"),
      ("Vlan", "uint16", "vlan,omitempty")] := by decide
-
-/-- the guards of `FloatingIPPool.UnmarshalJSON` which `jsonConf` / `nodeSubnetsOf` / `buildPool` mirror -/
-theorem fact_unmarshalGuards : unmarshalGuards =
-    ["err := json.Unmarshal(data, &conf); err != nil", "conf.RoutableSubnet == nil && len(conf.NodeSubnets) == 0",
-     "conf.RoutableSubnet != nil", "conf.NodeSubnets[i] == nil", "_, ok := m[ipNet.String()]; !ok",
-     "conf.Gateway != nil", "conf.Subnet != nil", "ipr != nil"] := by decide
-
-/-- what `FloatingIPPool.MarshalJSON` writes (`encodePool`) -/
-theorem fact_marshalAssigns : marshalAssigns =
-    ["conf.NodeSubnets = append(conf.NodeSubnets, nets.NetsIPNet(fip.NodeSubnets[i]))",
-     "conf.Subnet = nets.NetsIPNet(fip.IPNet())", "conf.Gateway = fip.Gateway", "conf.Vlan = fip.Vlan",
-     "conf.IPs = make([]string, 0)", "conf.IPs = append(conf.IPs, ipr.String())"] := by decide
-
-/-- `ensureIPAMConf`: unchanged text → nothing; decode error → return before `ConfigurePool`; null pool → return
-    before `ConfigurePool`; `*lastConf` is assigned only after `ConfigurePool` succeeded (`ensureConf` mirrors it). -/
-theorem fact_ensureConfSkeleton : ensureConfSkeleton =
-    ["if newConf == *lastConf -> return false, nil", "var conf []*floatingip.FloatingIPPool",
-     "if err := json.Unmarshal([]byte(newConf), &conf); err != nil -> return false, error",
-     "for: if conf[i] == nil -> return false, error",
-     "if err := p.ipam.ConfigurePool(conf); err != nil -> return false, error", "*lastConf = newConf",
-     "return true, nil"] := by decide
 
 /-! ## Non-vacuity: the hypotheses above are satisfiable by non-trivial inputs -/
 
